@@ -27,8 +27,10 @@ struct Problem
 Problem gen_problem(vf::Tape & t, vf::Ctx & ctx, int M, int N)
 {
   Problem p;
-  const int m = M > 0 ? M : 1 + static_cast<int>(t.choice(40));
-  const int n = N > 0 ? N : 1 + static_cast<int>(t.choice(40));
+  // sizes 1..40, skewed towards small systems (the long-double reference costs O(n^3))
+  const bool big = t.choice(4) == 0;
+  const int m = M > 0 ? M : 1 + static_cast<int>(t.choice(big ? 40 : 9));
+  const int n = N > 0 ? N : 1 + static_cast<int>(t.choice(big ? 40 : 9));
   p.rank_class = static_cast<int>(t.choice(3));
   const double dens = t.choice(3) == 0 ? 1.0 : t.range(0.1, 1.0);
   auto entry = [&]() { return t.unit() < dens ? t.sym(3.0) : 0.0; };
@@ -57,10 +59,10 @@ Problem gen_problem(vf::Tape & t, vf::Ctx & ctx, int M, int N)
   p.r.resize(m);
   const auto rc = t.choice(4);
   for (int i = 0; i < m; ++i) p.r(i) = rc == 0 ? 0.0 : t.sym(10.0);
-  if (rc == 1) {
+  if (rc == 1 && !p.J.isZero(0)) {
     // r orthogonal to range(J): project out (in double; "orthogonal up to rounding")
     Eigen::VectorXd x = p.J.colPivHouseholderQr().solve(p.r);
-    p.r -= p.J * x;
+    if (x.allFinite()) p.r -= p.J * x;
     ctx.label("r:orthogonal-to-range");
   } else if (rc == 0) {
     ctx.label("r:zero");
@@ -105,8 +107,11 @@ void check_solution(const char * kind, const Problem & p, const Ref & R, const J
   ctx.require(std::string(kind) + ": same dx with and without dphi", (dx - dx2).isZero(0));
   const VecL x = dx.cast<LD>();
   // normal equations, backward error
-  const LD res = (R.H * x + R.g).norm();
-  const LD den = R.Hnorm * x.norm() + R.g.norm();
+  // backward error with respect to the data (J, r): J'r is itself only computable to eps |J| |r|, which matters when
+  // r is (nearly) orthogonal to range(J) and J'r cancels
+  const LD JnRn = p.J.cast<LD>().norm() * p.r.cast<LD>().norm();
+  const LD res  = (R.H * x + R.g).norm();
+  const LD den  = R.Hnorm * x.norm() + JnRn;
   ctx.le(std::string(kind) + ": normal-equation backward error", den > 0 ? static_cast<double>(res / den) : static_cast<double>(res), 1e-8);
 
   // descent of the linearised cost |J dx + r| <= |r| up to the rounding of the solve:
@@ -130,21 +135,24 @@ void check_solution(const char * kind, const Problem & p, const Ref & R, const J
     const VecL y = Eigen::LDLT<MatL>(R.H).solve(VecL(d.cwiseProduct(d).cwiseProduct(R.dx)));
     ref          = -(d.cwiseProduct(Dx)).dot(y) / nrm;
   }
-  const LD relt = 1e-6L + 100 * R.cond * 2.3e-16L;
+  // relative accuracy of dphi: conditioning of the solve and of the product J'r (cancellation)
+  const LD gcanc = R.g.norm() > 0 ? JnRn / R.g.norm() : std::numeric_limits<LD>::infinity();
+  const LD relt  = 1e-6L + 100 * R.cond * 2.3e-16L + 100 * gcanc * 2.3e-16L;
   if (relt < 1e-2L) {
     const LD sc = std::max<LD>(std::abs(ref), 1e-300L);
     if (nrm > 0 && nrm > 1e-9L * (R.g.norm() / std::max<LD>(R.Hnorm, 1e-300L))) {
       ctx.le(std::string(kind) + ": dphi == closed-form derivative", static_cast<double>(std::abs(static_cast<LD>(dphi) - ref) / sc), static_cast<double>(relt));
-      // independent of the closed form: central difference of phi in long double
-      const LD h = static_cast<LD>(p.lambda) * 1e-5L;
-      auto phi   = [&](LD lam) {
-        MatL H = JL.transpose() * JL;
-        for (Eigen::Index i = 0; i < H.rows(); ++i) H(i, i) += lam * d(i) * d(i);
-        const VecL xx = Eigen::LDLT<MatL>(H).solve(VecL(-R.g));
-        return d.cwiseProduct(xx).norm();
-      };
-      const LD fd = (phi(static_cast<LD>(p.lambda) + h) - phi(static_cast<LD>(p.lambda) - h)) / (2 * h);
-      if (R.cond < 1e10L) ctx.le(std::string(kind) + ": dphi == central difference of |D dx(lambda)|", static_cast<double>(std::abs(static_cast<LD>(dphi) - fd) / sc), static_cast<double>(relt + 1e-6L));
+      // independent of the closed form: complex-step derivative of phi(lambda) = sqrt(sum (d_i x_i(lambda))^2)
+      // (analytic in lambda; a central difference is ill-conditioned when phi barely depends on lambda)
+      {
+        orc::MatC Hc = (JL.transpose() * JL).cast<orc::CLD>();
+        for (Eigen::Index i = 0; i < Hc.rows(); ++i) Hc(i, i) += orc::CLD(static_cast<LD>(p.lambda), orc::CS_H) * orc::CLD(d(i) * d(i));
+        const orc::VecC xc = Eigen::PartialPivLU<orc::MatC>(Hc).solve(orc::VecC((-R.g).cast<orc::CLD>()));
+        orc::CLD ss(0, 0);
+        for (Eigen::Index i = 0; i < xc.size(); ++i) ss += (orc::CLD(d(i)) * xc(i)) * (orc::CLD(d(i)) * xc(i));
+        const LD cs = std::sqrt(ss).imag() / orc::CS_H;
+        if (R.cond < 1e10L) ctx.le(std::string(kind) + ": dphi == complex-step derivative of |D dx(lambda)|", static_cast<double>(std::abs(static_cast<LD>(dphi) - cs) / sc), static_cast<double>(relt));
+      }
     } else if (nrm == 0) {
       ctx.require(std::string(kind) + ": dphi == 0 when dx == 0", dphi == 0 || std::abs(dphi) <= 1e-300, vf::str(dphi));
     }
